@@ -187,6 +187,14 @@ def gen(rng, tier):
             other = pdu_v2(root, body[hdr_len:-(hl + 3)] + tlv(0x05 if fam == "aggr" else 0x04, b""), alg, key)
             spliced = other[:-hl] + b[-hl:]
             yield "resp %s %d - %s %s auth=0" % (fam, ver, hx(key), hx(spliced))
+        else:
+            # the client's own authenticated request sent back with a response element spliced in: the MAC (over header and
+            # request) is genuine, the response is not covered by it
+            h = header()
+            req = tlv(0x201, tlv(0x01, be(1)) + tlv(0x02, bytes([1]) + rng.randbytes(32))) if fam == "aggr" else tlv(0x301, tlv(0x01, be(1)) + tlv(0x02, be(1400000000)))
+            resp_el = b[4 + 2 + b[5]:len(b) - (hl + 3)]
+            for order in (req + resp_el, resp_el + req):
+                yield "resp %s %d - %s %s auth=0" % (fam, ver, hx(key), hx(tlv(root, h + order + tlv(0x1f, mac(alg, key, h + req)))))
         # error PDUs need no MAC and never deliver content
         e = tlv(root, (header() if rng.random() < 0.5 else b"") + err_pdu({0x221: 0x03, 0x321: 0x03, 0x200: 0x203, 0x300: 0x303}[root], rng.choice([0x101, 0x102, 0x300, 0x55])))
         yield "resp %s %d - %s %s auth=0" % (fam, ver, hx(key), hx(e))
